@@ -475,7 +475,7 @@ func (c *c18) buildList(sh shape) (upc.UEPolicySectionManagementListContent, []r
 			for _, p := range in.parts {
 				var part upc.UEPolicyPart
 				part.UEPolicyPartType.SetPartType(p.typ)
-				part.SetPartContent(append([]byte(nil), p.content...))
+				part.SetPartContent(hk.ExactNil(p.content))
 				if in.partPreLen != 0 {
 					part.SetLen(in.partPreLen)
 				}
@@ -861,10 +861,10 @@ func runC18(r *hk.Run) {
 		r.Retain("uePolicyContainer.UEPolicySectionManagementResult.MarshalBinary", hk.Hex(res.Buffer), o2)
 		var bl upc.UEPolicySectionManagementList
 		var br upc.UEPolicySectionManagementResult
-		if e1 != nil || bl.UnmarshalBinary(bytes.NewBuffer(append([]byte(nil), o1...))) != nil || bl.Iei != l.Iei || bl.Len != l.Len || !bytes.Equal(bl.Buffer, l.Buffer) {
+		if e1 != nil || bl.UnmarshalBinary(bytes.NewBuffer(hk.ExactNil(o1))) != nil || bl.Iei != l.Iei || bl.Len != l.Len || !bytes.Equal(bl.Buffer, l.Buffer) {
 			c.fail("uePolicyContainer.UEPolicySectionManagementList.MarshalBinary", "roundtrip", hk.Hex(o1), "decode(encode(element)) differs from the element")
 		}
-		if e2 != nil || br.UnmarshalBinary(bytes.NewBuffer(append([]byte(nil), o2...))) != nil || br.Iei != res.Iei || br.Len != res.Len || !bytes.Equal(br.Buffer, res.Buffer) {
+		if e2 != nil || br.UnmarshalBinary(bytes.NewBuffer(hk.ExactNil(o2))) != nil || br.Iei != res.Iei || br.Len != res.Len || !bytes.Equal(br.Buffer, res.Buffer) {
 			c.fail("uePolicyContainer.UEPolicySectionManagementResult.MarshalBinary", "roundtrip", hk.Hex(o2), "decode(encode(element)) differs from the element")
 		}
 		r.Evals += 2
@@ -1103,7 +1103,7 @@ func runC18(r *hk.Run) {
 				if v < 0 || v > 65535 || v == actual {
 					continue
 				}
-				m := append([]byte(nil), base...)
+				m := hk.ExactNil(base)
 				m[p], m[p+1] = byte(v>>8), byte(v)
 				c.emitDecode("malformed_lengths", which, m)
 			}
@@ -1112,7 +1112,7 @@ func runC18(r *hk.Run) {
 			c.emitDecode("malformed_truncated", which, base[:cut])
 		}
 		for j := 0; j < 6; j++ {
-			m := append([]byte(nil), base...)
+			m := hk.ExactNil(base)
 			m[rng.Intn(len(m))] = rng.Byte()
 			c.emitDecode("malformed_mutated", which, m)
 		}
@@ -1130,7 +1130,7 @@ func runC18(r *hk.Run) {
 				if v < 0 || v > 65535 || v == actual {
 					continue
 				}
-				m := append([]byte(nil), base...)
+				m := hk.ExactNil(base)
 				m[3], m[4] = byte(v>>8), byte(v)
 				c.emitDecode("malformed_lengths", decSer, m)
 				c.emitDecode("malformed_lengths", decListIE, m[2:])
@@ -1139,7 +1139,7 @@ func runC18(r *hk.Run) {
 			c.emitDecode("malformed_truncated", decListIE, base[2:])
 			c.emitDecode("malformed_truncated", decResultIE, base[2:])
 		}
-		m := append(append([]byte(nil), base...), rng.Bytes(1+rng.Intn(4))...) // trailing octets
+		m := append(hk.ExactNil(base), rng.Bytes(1+rng.Intn(4))...) // trailing octets
 		c.emitDecode("malformed_trailing", decSer, m)
 	}
 	// random octets into all five decoders
